@@ -430,7 +430,8 @@ EXECUTED_FOR_ALL_INPUTS = {
 BOUNDED_ONLY = {
     (DEX, "EncodedMethod.get_information", 0): "counter loop over a parsed list (not on the parsing path)",
     (DEX, "EncodedMethod.get_short_string._fmt_classname", 0): "strips one '[' per iteration of a finite string",
-    (AXML, "AXMLPrinter.__init__", 0): "one _do_next step per iteration; ends with END_DOCUMENT or an invalid parser (whole_parsers, many_attributes)",
+    (AXML, "AXMLPrinter.__init__", 0): "one _do_next step per iteration; the step's proved postcondition (C26 chunk_loop_terminates: END_DOCUMENT, "
+                                       "invalid, or >= 8 bytes consumed) gives the variant `bytes left`; this last step is not mechanised (whole_parsers, many_attributes)",
     (AXML, "ARSCParser.__init__", 0): "chunk loop: seeks to header.start + size, size >= 8 (whole_parsers)",
     (AXML, "ARSCParser.__init__", 1): "package chunk loop: seeks to header.end (whole_parsers)",
     (AXML, "ARSCParser._analyse", 1): "index walk over the parsed package list",
@@ -440,7 +441,7 @@ BOUNDED_ONLY = {
     (APKF, "APK.parse_v3_signing_block", 1): "certificates: length-prefixed (C33 generated_blocks)",
     (APKF, "APK.parse_v2_signing_block", 0): "signers: length-prefixed (C33 generated_blocks)",
     (APKF, "APK.parse_v2_signing_block", 1): "certificates: length-prefixed (C33 generated_blocks)",
-    (APKF, "get_apkid", 0): "one parser step per iteration (whole_parsers)",
+    (APKF, "get_apkid", 0): "one _do_next step per iteration (as AXMLPrinter.__init__)",
 }
 
 
